@@ -6,7 +6,21 @@ from harness.props.c09 import Band
 class C10(scen.WorldProp):
     id = "C10"
     lean_module = "Wheatley.Props.C10"
-    theorems = []
+    theorems = ["Wheatley.C10.assertion_passes",
+                "Wheatley.C10.boundary_keeps_inv",
+                "Wheatley.C10.boundary_ok",
+                "Wheatley.C10.turn_ok",
+                "Wheatley.C10.go_ok",
+                "Wheatley.C10.look_to_ok",
+                "Wheatley.C10.msg_ok",
+                "Wheatley.C10.init_ok",
+                "Wheatley.C10.turn_begins",
+                "Wheatley.C10.turn_keeps_place",
+                "Wheatley.C10.look_to_place",
+                "Wheatley.C10.size_change_keeps_place",
+                "Wheatley.C10.size_change_rows",
+                "Wheatley.C10.wait_ends_when_heard",
+                "Wheatley.C09.keep_going_never_waits"]
     level_text = ("theorems: the main loop's two failure points are unreachable - the place always indexes the row "
                   "being rung (invariant over every message and every turn, including tower-size changes mid-row) and "
                   "the stroke assertion of start_next_row cannot fail (counter/parity invariant over every message and "
